@@ -739,3 +739,34 @@ func keysOf(m map[int64]bool) []int64 {
 	sort.Slice(out, func(i, j int) bool { return out[i] < out[j] })
 	return out
 }
+
+// fallbackValueRule: every restart of renderValue (fallback style, decimal) renders the value it was asked to render:
+// the value argument of each recursive call is the function's own parameter, not the absolute value taken for the
+// systems that write the sign apart.
+func fallbackValueRule(c *core.Check, r *core.Rule) {
+	p := c.Prog
+	fn := p.Method("css/counters", "CounterStyle", "renderValue")
+	if fn == nil || len(fn.Params) < 2 {
+		r.Anchor("css/counters.CounterStyle.renderValue")
+		return
+	}
+	par := fn.Params[1] // receiver, counterValue, …
+	n := 0
+	core.Instrs(fn, func(in ssa.Instruction) {
+		call, ok := in.(*ssa.Call)
+		if !ok {
+			return
+		}
+		cal := call.Call.StaticCallee()
+		if cal == nil || (cal.Name() != "renderValue" && cal.Name() != "RenderValue") || len(call.Call.Args) < 2 {
+			return
+		}
+		n++
+		key := "css/counters.renderValue | " + p.StmtTextAt(fn, call.Pos())
+		r.Cond(call.Call.Args[1] == ssa.Value(par), key, p.Pos(call.Pos()), "the value handed on is the parameter counterValue",
+			"the value handed to the fallback is not the one renderValue was asked for (the absolute value taken for the signed systems: an additive style without a representation for 5 renders -5 as 5)")
+	})
+	if n < 10 {
+		r.Anchor(fmt.Sprintf("renderValue: restarts with another style (%d found, at least 10 confirmed by reading)", n))
+	}
+}
